@@ -7,6 +7,7 @@ import (
 	"io"
 	"sync"
 
+	"github.com/ipfs/boxo/internal/verifhook"
 	mod "github.com/ipfs/boxo/ipld/unixfs/mod"
 	ipld "github.com/ipfs/go-ipld-format"
 )
@@ -76,6 +77,7 @@ func (fi *fileDescriptor) checkRead() error {
 
 // Size returns the size of the file referred to by this descriptor
 func (fi *fileDescriptor) Size() (int64, error) {
+	verifhook.Point("fd.Size:mu.Lock")
 	fi.mu.Lock()
 	defer fi.mu.Unlock()
 	return fi.mod.Size()
@@ -83,6 +85,7 @@ func (fi *fileDescriptor) Size() (int64, error) {
 
 // Truncate truncates the file to size
 func (fi *fileDescriptor) Truncate(size int64) error {
+	verifhook.Point("fd.Truncate:mu.Lock")
 	fi.mu.Lock()
 	defer fi.mu.Unlock()
 	if err := fi.checkWrite(); err != nil {
@@ -94,6 +97,7 @@ func (fi *fileDescriptor) Truncate(size int64) error {
 
 // Write writes the given data to the file at its current offset
 func (fi *fileDescriptor) Write(b []byte) (int, error) {
+	verifhook.Point("fd.Write:mu.Lock")
 	fi.mu.Lock()
 	defer fi.mu.Unlock()
 	if err := fi.checkWrite(); err != nil {
@@ -105,6 +109,7 @@ func (fi *fileDescriptor) Write(b []byte) (int, error) {
 
 // Read reads into the given buffer from the current offset
 func (fi *fileDescriptor) Read(b []byte) (int, error) {
+	verifhook.Point("fd.Read:mu.Lock")
 	fi.mu.Lock()
 	defer fi.mu.Unlock()
 	if err := fi.checkRead(); err != nil {
@@ -116,6 +121,7 @@ func (fi *fileDescriptor) Read(b []byte) (int, error) {
 // CtxReadFull reads into the given buffer from the current offset,
 // using the provided context for cancellation of block fetches.
 func (fi *fileDescriptor) CtxReadFull(ctx context.Context, b []byte) (int, error) {
+	verifhook.Point("fd.CtxReadFull:mu.Lock")
 	fi.mu.Lock()
 	defer fi.mu.Unlock()
 	if err := fi.checkRead(); err != nil {
@@ -127,6 +133,7 @@ func (fi *fileDescriptor) CtxReadFull(ctx context.Context, b []byte) (int, error
 // Close flushes, then propagates the modified dag node up the directory structure
 // and signals a republish to occur
 func (fi *fileDescriptor) Close() error {
+	verifhook.Point("fd.Close:mu.Lock")
 	fi.mu.Lock()
 	defer fi.mu.Unlock()
 	if fi.state == stateClosed {
@@ -147,6 +154,7 @@ func (fi *fileDescriptor) Close() error {
 // the entry in the parent directory (setting `fullSync` to
 // propagate the update all the way to the root).
 func (fi *fileDescriptor) Flush() error {
+	verifhook.Point("fd.Flush:mu.Lock")
 	fi.mu.Lock()
 	defer fi.mu.Unlock()
 	if fi.state == stateClosed {
@@ -178,6 +186,7 @@ func (fi *fileDescriptor) flushUp(fullSync bool) error {
 		// (`File` and `Directory`) are backed by a IPLD node with
 		// a UnixFS format that is the actual target of the update
 		// (regenerating it and adding it to the DAG service).
+		verifhook.Point("fd.flushUp:nodeLock.Lock")
 		fi.inode.nodeLock.Lock()
 		// Always update the file descriptor's inode with the created/modified node.
 		fi.inode.node = nd
@@ -205,6 +214,7 @@ func (fi *fileDescriptor) flushUp(fullSync bool) error {
 
 // Seek implements io.Seeker
 func (fi *fileDescriptor) Seek(offset int64, whence int) (int64, error) {
+	verifhook.Point("fd.Seek:mu.Lock")
 	fi.mu.Lock()
 	defer fi.mu.Unlock()
 	if fi.state == stateClosed {
@@ -215,6 +225,7 @@ func (fi *fileDescriptor) Seek(offset int64, whence int) (int64, error) {
 
 // WriteAt writes the given bytes at the offset 'at'
 func (fi *fileDescriptor) WriteAt(b []byte, at int64) (int, error) {
+	verifhook.Point("fd.WriteAt:mu.Lock")
 	fi.mu.Lock()
 	defer fi.mu.Unlock()
 	if err := fi.checkWrite(); err != nil {
